@@ -233,7 +233,9 @@ Qed.
 Lemma on_retract_response_K s w ids s' : CS (core_of s) -> on_retract_response s w ids = Ok s' -> K s' = K s.
 Proof.
   unfold on_retract_response. intros Hs H. destruct (retract_response_states _ w ids []) as [c' groups] eqn:E.
-  unfold K. rewrite (send_redirected_core _ _ _ H). cbn. eapply retract_response_states_frame; [exact Hs | exact E].
+  apply bind_ok in H. destruct H as (s2 & H & H2).
+  assert (E2 : K s' = K s2) by (destruct (retract_wakes _ _ _ _); inversion H2; subst s'; reflexivity).
+  rewrite E2. unfold K. rewrite (send_redirected_core _ _ _ H). cbn. eapply retract_response_states_frame; [exact Hs | exact E].
 Qed.
 
 (** * Server *)
